@@ -43,6 +43,7 @@ def setup(ctx):
         "a truncated 2x body (upstream closes cleanly mid-body) cannot be told from a complete one and is relayed as received",
     ]
     ctx.require("monitor", "concurrent_exchanges", 8)
+    ctx.require("monitor", "complete_non2x_then_trouble", 9)
     ctx.require("monitor", "exchanges", 74)
     ctx.require("monitor", "verbatim_compared", 43)
     ctx.require("monitor", "faults_injected", 25)
@@ -232,6 +233,39 @@ def run(ctx):
                     else:
                         ctx.count("outcome", f"verbatim:{cls}:{stclass}")
                     ctx.case(("verbatim", cls, stclass, cs, chunked, r["data"][:2]), True, sample={"class": cls, "charset": cs, "upstream": stream[:60], "downstream": r["data"][:60], "identical": r["data"] == stream})
+            # ---- A2. a complete non-2x response followed by more bytes that arrive late (after the proxy's client
+            # has hung up), or by a reset instead of a clean close: the response was complete, it is relayed
+            if ctx.mine(7):
+                for st, meta in ((10, "Enter a name"), (11, "Password"), (30, "gemini://example.org/elsewhere"), (44, "30"), (51, "Not found"), (60, "Certificate required")):
+                    for after in ("late-bytes", "late-second-response", "reset"):
+                        header = f"{st} {meta}\r\n".encode()
+
+                        def fn(conn, header=header, after=after):
+                            conn.read_line(timeout=3)
+                            conn.send(header)
+                            time.sleep(0.08)
+                            try:
+                                if after == "reset":
+                                    conn.reset()
+                                    return
+                                conn.send(b"unexpected body " * 40 if after == "late-bytes" else b"20 text/gemini\r\nsecond\n")
+                                time.sleep(0.02)
+                                conn.send(b"more")
+                            except Exception:
+                                pass
+                            conn.close()
+
+                        world.upstream_script["fn"] = fn
+                        r = fetchA()
+                        world.upstream.wait_idle(3)
+                        ctx.count("monitor", "exchanges")
+                        ctx.count("monitor", "verbatim_compared")
+                        ctx.count("monitor", "complete_non2x_then_trouble")
+                        wit = {"upstream_header": header, "then": after, "downstream": r["data"][:120]}
+                        if r["data"] != header:
+                            ctx.violation(f"relay-altered:complete-non2x-then-{after}:status={st // 10}x", "a complete non-2x upstream response was not relayed as it was (the upstream misbehaved only after it)", wit)
+                        ctx.case(("late-trouble", st, after, r["data"][:2]), True, sample=wit)
+                world.upstream_script["fn"] = None
             srvA.__exit__(None, None, None)
             # ---- grey metas
             if ctx.shard == 0:
